@@ -201,7 +201,82 @@ def make_generator(name, f):
     return contract
 
 
+# ------------------------------------------------------------------------------------------------ caller side
+SS_CLOCK = 125e6       # the SuperSpeed (PIPE PCLK) frequency; LFPSTransceiver's default, which USB3PhysicalLayer does not override
+
+
+def _pick(c, U, insts, port, target):
+    """the instance among `insts` whose `port` output is, for all states, the signal `target` (selection only: by the driver, not
+    by submodule name, creation order or private attributes); None if there is none"""
+    want = U.of(target)
+    for x in insts:
+        try:
+            have = U.of(getattr(x, port))
+        except Exception:
+            continue
+        if have.size() != want.size():
+            continue
+        s = z3.Solver()
+        s.set("timeout", 10000)
+        s.add(have != want)
+        if s.check() == z3.unsat:
+            return x
+    return None
+
+
+def physical_layer_wiring(c):
+    """USB3PhysicalLayer.elaborate() and the LFPSTransceiver it creates (real parent, open PIPE interface, every interface signal
+    a free input; see c31.PhysicalLayerUnits).  For each pattern: the layer's lfps_<pattern>_detected output is the `detect` of an
+    LFPSDetector instance that (a) IS the configuration contracted above - LFPSDetector(<pattern>, 125 MHz): same registers and reset
+    values, same next-state and output functions - and (b) is fed the PHY's 'not RX_ELECIDLE' envelope.  The generator that drives
+    TX_DETRX_LPBK / TX_ELECIDLE is LFPSGenerator(polling, 125 MHz) enabled by the layer's send_lfps_polling."""
+    from .c31_scrambling import PhysicalLayerUnits
+    from .c46_ss_in_endpoint import instance_is_contracted_unit, path_of
+    U = PhysicalLayerUnits(c)
+    of, S, d, pipe, lfps, ts = U.of, U.S, U.d, U.pipe, U.lfps, U.ts
+    c.lemma("transceiver_envelope_is_not_rx_electrical_idle", of(lfps.signaling_received) == ~of(pipe.rx_elec_idle),
+            clause="all received signalling envelopes: signaling_received is the PHY's RX_ELECIDLE de-asserted [TUSB1310A table 3-3]")
+    c.lemma("transceiver_has_exactly_three_detectors_and_one_generator", z3.BoolVal(len(U.detectors) == 3 and len(U.generators) == 1))
+    for name in ("polling", "ping", "reset"):
+        out = getattr(d, f"lfps_{name}_detected")
+        det = _pick(c, U, U.detectors, "detect", out)
+        c.lemma(f"{name}_detected_is_the_detect_output_of_a_detector", z3.BoolVal(det is not None),
+                clause=f"a {name} pattern is reported ...: the layer's lfps_{name}_detected is an LFPSDetector's `detect`")
+        if det is None:
+            continue
+        c.lemma(f"{name}_report_passes_through_the_transceiver", S(getattr(lfps, f"{name}_detected"), det.detect))
+        c.lemma(f"{name}_detector_sees_the_receive_envelope",
+                z3.And(S(det.signaling_received, lfps.signaling_received), of(det.signaling_received) == ~of(pipe.rx_elec_idle)),
+                clause="signalling outside the windows is never reported: the detector measures the PHY's receive envelope")
+        instance_is_contracted_unit(c, ts, path_of(ts, det), det, LFPSDetector(REAL[name], SS_CLOCK), ["signaling_received"], ["detect"],
+                                    f"{name}_detector_ref",
+                                    clause=f"within the pattern's burst window / repeat window: the detector behind lfps_{name}_detected is "
+                                           f"LFPSDetector({name}, {SS_CLOCK:g} Hz), the configuration proved above")
+    gen = U.generators[0] if U.generators else None
+    if gen is not None:
+        c.lemma("generator_is_enabled_by_send_lfps_polling",
+                z3.And(S(gen.generate, lfps.send_polling), S(lfps.send_polling, d.send_lfps_polling)),
+                clause="the generator produces bursts ... while enabled: generate is the layer's send_lfps_polling")
+        c.lemma("phy_lfps_drive_is_the_generators",
+                z3.And(of(pipe.power_down) == 0, of(pipe.tx_detrx_lpbk) == of(gen.send_signaling),
+                       of(pipe.tx_elec_idle) == (of(gen.drive_electrical_idle) | of(d.tx_electrical_idle)),
+                       S(lfps.send_signaling, gen.send_signaling), S(lfps.drive_electrical_idle, gen.drive_electrical_idle)),
+                clause="observe at send_signaling / drive_electrical_idle: in P0 (power_down is tied to 0) TX_DETRX_LPBK is the generator's "
+                       "send_signaling and TX_ELECIDLE its drive_electrical_idle (or the LTSSM's electrical idle)")
+        instance_is_contracted_unit(c, ts, path_of(ts, gen), gen, LFPSGenerator(REAL["polling"], SS_CLOCK), ["generate"],
+                                    ["completed", "drive_electrical_idle", "send_signaling"], "polling_generator_ref",
+                                    clause=f"bursts of the typical length at the typical period: the generator is LFPSGenerator(polling, {SS_CLOCK:g} Hz)")
+        # the cycle counter the LTSSM reads (LFPSTransceiver's own glue): completed periods while polling is requested
+        sent = of(d.lfps_cycles_sent)
+        c.lemma("cycles_sent_is_the_transceivers_counter", S(d.lfps_cycles_sent, lfps.cycles_sent))
+        c.ensure("cycles_sent_counts_completed_periods_while_polling_is_requested",
+                 c.nx(sent) == z3.If(of(d.send_lfps_polling) == 1, z3.If(of(gen.completed) == 1, sent + 1, sent), bvc(0, sent.size())),
+                 clause="(LFPSTransceiver glue) cycles_sent: +1 per completed burst period while send_lfps_polling is held, 0 otherwise")
+    c.cosim_cycles = 8
+
+
 def contracts(tier):
+    yield ("USB3PhysicalLayer", "wiring_lfps", physical_layer_wiring)
     if tier == "quick":
         det = [("polling", 125e6), ("polling", 5e6), ("ping", 125e6), ("reset", 125e6), ("reset", 250.0),    # 125 MHz: as built
                ("polling", 1.14e6), ("reset", 2133.0)]   # clocks at which the longest window edge is exactly 2^k cycles (counter width boundary)
